@@ -449,6 +449,24 @@ def make_images(ctx):
         img, fr = pl.gen_modular_image(rng, {"bits": bits})
         img["buf16"] = True
         cases.append(("general", img, fr))
+    # samples beyond the nominal range of the bit depth (legal in Modular: overshoot of lossy encoders):
+    # the narrow grids hold them as they are; what the integer outputs clamp must not depend on the width
+    for i in range(24 if q else 300):
+        bits = rng.choice([8, 8, 8, 10, 12])
+        w, h = rng.choice([1, 3, 8, 9, 17]), rng.choice([1, 2, 5, 8])
+        hi = (1 << bits) - 1
+        lo2, hi2 = -(hi // 4) - 1, hi + hi // 4 + 1
+        gray = rng.random() < 0.3
+        nec = rng.choice([0, 0, 1])
+        ecs = [{"ty": 0, "dim_shift": 0, "bits": bits, "alpha_assoc": False} for _ in range(nec)]
+        img = {"w": w, "h": h, "bits": bits, "gray": gray, "buf16": True, "ecs": ecs, "orient": 1}
+        nch = (1 if gray else 3) + nec
+        chans = [(w, h, [rng.choice([lo2, hi2, hi + 1, hi + 45, -1, -40, 0, hi, rng.randint(lo2, hi2)]) for _ in range(w * h)])
+                 for _ in range(nch)]
+        tree = pl.gen_tree(rng, rng.choice([0, 1, 2]), rng.randint(1, 3), (lo2, hi2), nprev=0)
+        frame = {"gshift": rng.randrange(4), "chans": chans, "tr": [], "pals": [], "tree": tree, "wp": None,
+                 "ent": rng.choice([0, 1, 2, 3])}
+        cases.append(("overshoot", img, [frame]))
     for _ in range(n_lane):
         img, fr = gen_lane_image(rng)
         cases.append(("lane-squeeze", img, fr))
@@ -539,6 +557,12 @@ def check_images(ctx, cases, corpus=False):
         for wide in (False, True):
             runs[(release, wide)] = decode_all(ctx, hexes, release, wide)
     thr = decode_all(ctx, hexes, True, False, threads=3) if not ctx.quick else None
+    # the integer output forms (8- / 16-bit sample streams) of the narrow and of the wide session
+    sruns = {}
+    for release in (False, True):
+        for wide in (False, True):
+            slines = [f"decode {h} wide={int(wide)} threads=0 streams=1" for h in hexes]
+            sruns[(release, wide)] = run_lines_robust([ctx.harness_bin("img", release)], slines, per_line_timeout=30)
     n_in = n_out = 0
     for k, (kind, img, line, enc, rg) in enumerate(todo):
         hexs, frames = enc
@@ -622,6 +646,15 @@ def check_images(ctx, cases, corpus=False):
                 if rg["decsame"] and gw != rg["wide"]:
                     report(ctx, "wide-decode-differs-from-model-sb32", {"build": label, "channel": first_diff(gw, rg["wide"]), "class": cls},
                                   base_replay, key=f"image:wide!=model32:{kind}")
+        if fits:
+            for release in (False, True):
+                sn, sw = sruns[(release, False)][k] or "crash", sruns[(release, True)][k] or "crash"
+                ctx.count("streams-compared")
+                if sn != sw:
+                    report(ctx, "integer-streams-of-narrow-session-differ-from-wide",
+                           {"build": "release" if release else "checked", "narrow": sn[:160], "wide": sw[:160]},
+                           dict(base_replay, how=base_replay["how"] + " ; the same with ' streams=1' appended: 8- and 16-bit sample streams"),
+                           key=f"image:streams-narrow!=wide:{kind}")
         if thr is not None and fits:
             gt = grids(thr[k] or "crash")
             if gt != exp:
